@@ -80,6 +80,28 @@ def _get_ast_node_variables(node: ast.AST, aliases: Mapping) -> list[Variable]:
     todo = deque([node])
     while todo:
         node = todo.popleft()
+        if isinstance(
+            node,
+            (ast.ListComp, ast.SetComp, ast.DictComp, ast.GeneratorExp, ast.Lambda),
+        ):
+            # Names bound by a comprehension or lambda are not variables of the
+            # expression.
+            if isinstance(node, ast.Lambda):
+                bound = {arg.arg for arg in ast.walk(node.args) if isinstance(arg, ast.arg)}
+            else:
+                bound = {
+                    name.id
+                    for generator in node.generators
+                    for name in ast.walk(generator.target)
+                    if isinstance(name, ast.Name)
+                }
+            variables.extend(
+                variable
+                for child in ast.iter_child_nodes(node)
+                for variable in _get_ast_node_variables(child, aliases)
+                if variable.split(".", 1)[0] not in bound
+            )
+            continue
         if not isinstance(node, (ast.Call, ast.Attribute, ast.Name)):
             todo.extend(ast.iter_child_nodes(node))
             continue
